@@ -1331,6 +1331,15 @@ func Generate(r *rand.Rand, profile string, concurrent bool, av Avoid) *Plan {
 		frag = append(frag, Op{K: OpPick, B: MPlain, C: 2, N: st()}, Op{K: OpPick, B: MPlain, N: st()},
 			Op{K: OpConn, A: -1, B: ConnProgress, N: st()}, Op{K: OpConn, A: -1, B: ConnProgress, N: st()},
 			Op{K: OpPick, B: MPlain, C: 2, N: st()}, Op{K: OpSteps, A: 60})
+		if r.IntN(2) == 0 {
+			// then the older channels fail for good: what is published must count the
+			// added channel with the state its reports (delivered while it was being
+			// added) gave it
+			for c := 0; c < mx-1; c++ {
+				frag = append(frag, Op{K: OpConn, A: c, B: ConnFail, N: st()}, Op{K: OpConn, A: c, B: ConnProgress, N: st()}, Op{K: OpConn, A: c, B: ConnFail, N: st()})
+			}
+			frag = append(frag, Op{K: OpSteps, A: 60})
+		}
 		at := 1
 		ops := append([]Op{}, p.Ops[:at]...)
 		ops = append(ops, frag...)
